@@ -98,9 +98,19 @@ def run_case(c):
 
 
 def main():
-    with open(sys.argv[2], encoding="utf-8") as f, open(sys.argv[3], "w", encoding="utf-8") as g:
-        for line in f:
-            g.write(json.dumps(run_case(json.loads(line)), ensure_ascii=True) + "\n")
+    # optional 4th argument "reverse": same cases, opposite processing order (the extension must not care);
+    # results are always written in the order of the case file
+    with open(sys.argv[2], encoding="utf-8") as f:
+        cases = [json.loads(line) for line in f]
+    order = list(range(len(cases)))
+    if len(sys.argv) > 4 and sys.argv[4] == "reverse":
+        order.reverse()
+    results = [None] * len(cases)
+    for i in order:
+        results[i] = run_case(cases[i])
+    with open(sys.argv[3], "w", encoding="utf-8") as g:
+        for r in results:
+            g.write(json.dumps(r, ensure_ascii=True) + "\n")
 
 
 if __name__ == "__main__":
